@@ -524,6 +524,11 @@ func (m *mux) newChannel(chanType string, direction channelDirection, extraData 
 		packetPool:         make(map[uint32][]byte),
 	}
 	m.chanList.add(ch)
+	if m.chanList.isDropped() {
+		// The mux loop has already exited and closed all channels it knew
+		// about; close this one too so that nobody waits on it forever.
+		ch.close()
+	}
 	return ch
 }
 
